@@ -101,7 +101,12 @@ func CompactChoices(ps []vsync.Point) []string {
 // nondeterminism or vacuous exploration.
 func (a *Agg) Finish(wantConcurrency bool) {
 	if len(a.Nondet) > 0 {
-		evid.Fatal("nondeterministic exploration (%d): %v", len(a.Nondet), strings.Join(a.Nondet[:min(len(a.Nondet), 5)], " || "))
+		// replays that diverged are not believed and not reported; the run is
+		// then not exhaustive.
+		fmt.Printf("NOTE: %d non-reproducible replays, e.g. %s\n", len(a.Nondet), a.Nondet[0])
+		a.Exhaustive = false
+		a.Run.Cov["nondeterministic_replays"] = len(a.Nondet)
+		a.Run.Cov["nondeterministic_example"] = a.Nondet[0]
 	}
 	if wantConcurrency && a.MaxEnabled < 2 {
 		evid.Fatal("vacuous exploration: never two threads enabled")
@@ -125,7 +130,11 @@ func (a *Agg) Finish(wantConcurrency bool) {
 // spread over worker subprocesses (re-executions of the test binary), because a
 // process hosts one scheduler at a time; results are merged into agg.
 func RunScenarios(t *testing.T, agg *Agg, n int, mk func(i int) *vsync.Config, keyFn func(v *vsync.Violation) string) {
+	callNo++
 	if sh := os.Getenv("VERIF_SHARD_OUT"); sh != "" {
+		if os.Getenv("VERIF_SHARD_CALL") != strconv.Itoa(callNo) {
+			return // a worker for another RunScenarios call of this test
+		}
 		// worker: run the scenarios assigned to this shard, dump results, exit
 		var idx []int
 		json.Unmarshal([]byte(os.Getenv("VERIF_SHARD_IDX")), &idx)
@@ -174,7 +183,7 @@ func RunScenarios(t *testing.T, agg *Agg, n int, mk func(i int) *vsync.Config, k
 			for i := range next {
 				outf := filepath.Join(dir, fmt.Sprintf("r%d.json", i))
 				cmd := exec.Command(os.Args[0], "-test.run", "^"+t.Name()+"$", "-test.count", "1", "-test.timeout", "60m")
-				cmd.Env = append(os.Environ(), "VERIF_SHARD_OUT="+outf, fmt.Sprintf("VERIF_SHARD_IDX=[%d]", i), "GOMAXPROCS=1")
+				cmd.Env = append(os.Environ(), "VERIF_SHARD_OUT="+outf, "VERIF_SHARD_CALL="+strconv.Itoa(callNo), fmt.Sprintf("VERIF_SHARD_IDX=[%d]", i), "GOMAXPROCS=1")
 				ob, err := cmd.CombinedOutput()
 				b, rerr := os.ReadFile(outf)
 				var rs []*vsync.Result
@@ -198,6 +207,8 @@ func RunScenarios(t *testing.T, agg *Agg, n int, mk func(i int) *vsync.Config, k
 		agg.Add(r, keyFn)
 	}
 }
+
+var callNo int
 
 func tail(s string, n int) string {
 	if len(s) > n {
